@@ -41,6 +41,10 @@ import (
 // The histories form a tree without merging (the state is the history), so the
 // search is a plain exhaustive DFS; each history is replayed from scratch on
 // fresh databases (redis: FLUSHALL).
+//
+// A second enumeration (c26_heights_test.go) runs chains that start at a base
+// height, so that the heights embedded in the keys cross a decimal-width or a
+// byte-width boundary, with a reopen after every merge.
 
 type c26Config struct {
 	name      string
@@ -156,7 +160,7 @@ type c26Vio struct {
 	detail string
 }
 
-func c26Compare(cfg c26Config, m *vfModel, reopened bool, l, r vfAnswers) []c26Vio {
+func c26Compare(cfg c26Config, heights string, m *vfModel, reopened bool, l, r vfAnswers) []c26Vio {
 	var vios []c26Vio
 
 	phase := "after-merge"
@@ -200,9 +204,10 @@ func c26Compare(cfg c26Config, m *vfModel, reopened bool, l, r vfAnswers) []c26V
 			sig: map[string]any{
 				"kind": "backend-mismatch", "read": vfMethod(q), "part": vfPart(q), "class": class, "phase": phase,
 				"statecache": cfg.permcache > 0, "temp_has_statecache": cfg.tempcache > 0 && !cfg.reloaded,
+				"heights": heights,
 			},
-			detail: fmt.Sprintf("[%s] %s: leveldb = %s, redis = %s; merged chain [%s]",
-				cfg.name, q, vfShow(lv, lok), vfShow(rv, rok), m.ids()),
+			detail: fmt.Sprintf("[%s, heights %s] %s %s: leveldb = %s, redis = %s; merged chain [%s]",
+				cfg.name, heights, phase, q, vfShow(lv, lok), vfShow(rv, rok), m.ids()),
 		})
 	}
 
@@ -217,6 +222,12 @@ type c26Search struct {
 	depth     int
 	maxblocks int
 	counter   *int
+
+	// height-base dimension (c26_heights_test.go): the chain starts at block height base (and, when base > 0,
+	// suffrage height base) instead of 0; all: every step of the history is compared, not only the last one
+	base    int
+	heights string
+	all     bool
 }
 
 func (s *c26Search) enabled(nblocks int) []string {
@@ -253,38 +264,46 @@ func (s *c26Search) execute(hist []string) (vios []c26Vio, outcome string) {
 
 			reopened = true
 		default:
-			b := s.env.block(len(m.blocks), ev[1], m.sufh(), 0)
+			sufh := m.sufh()
+			if len(m.blocks) < 1 && s.base > 0 {
+				sufh = s.base - 1
+			}
+
+			b := s.env.block(s.base+len(m.blocks), ev[1], sufh, 0)
 			m.blocks = append(m.blocks, b)
 			m.merged = len(m.blocks)
 			ever = append(ever, b)
 
 			switch lerr, rerr := x.merge(b); {
 			case lerr == nil && rerr == nil:
-			case !last:
+			case !last && !s.all:
 				panic(fmt.Sprintf("harness: merge failed in a replay: %v / %v", lerr, rerr))
 			default:
-				return []c26Vio{{
-					sig:    map[string]any{"kind": "merge-error", "leveldb": lerr != nil, "redis": rerr != nil},
-					detail: fmt.Sprintf("MergeTempDatabase: leveldb: %v, redis: %v", lerr, rerr),
-				}}, "merge-error"
+				return append(vios, c26Vio{
+					sig: map[string]any{
+						"kind": "merge-error", "leveldb": lerr != nil, "redis": rerr != nil, "heights": s.heightsLabel(),
+					},
+					detail: fmt.Sprintf("[%s, heights %s] MergeTempDatabase of %s: leveldb: %v, redis: %v",
+						s.cfg.name, s.heightsLabel(), b.id, lerr, rerr),
+				}), "merge-error"
 			}
 
 			reopened = false
 		}
 
-		// every step reads everything on both (reads fill the state caches); only the last step is compared,
-		// the earlier ones were when that prefix was the history
-		d := s.env.domain(s.maxblocks, ever)
+		// every step reads everything on both (reads fill the state caches); in the DFS only the last step is
+		// compared, the earlier ones were when that prefix was the history
+		d := s.domain(ever)
 		l := s.env.readAll(x.lperm, d)
 		r := s.env.readAll(x.rperm, d)
 
-		if !last {
+		if !last && !s.all {
 			continue
 		}
 
 		s.r.Add("reads_compared", int64(len(l)))
 
-		vios = c26Compare(s.cfg, &m, reopened, l, r)
+		vios = append(vios, c26Compare(s.cfg, s.heightsLabel(), &m, reopened, l, r)...)
 
 		// vacuity guard: how much of the domain is answered with something
 		found := 0
@@ -296,6 +315,9 @@ func (s *c26Search) execute(hist []string) (vios []c26Vio, outcome string) {
 		}
 
 		outcome = fmt.Sprintf("%s:blocks=%d:found>%d", ev[:1], len(m.blocks), found/20*20)
+		if s.base > 0 {
+			outcome = s.heights + ":" + outcome
+		}
 	}
 
 	return vios, outcome
@@ -383,7 +405,9 @@ func TestVerifC26(t *testing.T) {
 
 	r.Rule("every history over {merge the next block of kind S/F/P/O (genesis G first) into both permanent databases, reopen both} up to the stated depth with at most the stated number of blocks, for each of 5 cache/temp configurations (in two of them the leveldb permanent database merges in batches of 2 / 3 keys); " +
 		"after every event every PermanentDatabase read over the full query domain (heights 0..bound+1, suffrage heights 0..bound+1, 5 state keys, every operation/fact hash of every merged block + an unknown one) on both, compared part by part; " +
-		"each history is one state (no merging); non-trivial = at least two merged blocks")
+		"each history is one state (no merging); non-trivial = at least two merged blocks. " +
+		"Height-base dimension: for each configuration x base height (first block at block height = suffrage height = B-1 (thorough also B-2), B in {10,100,1000,256,65536}) x every kind sequence of max_blocks blocks (G then S/F/P/O): " +
+		"merge, reopen both, merge, reopen both, ... (thorough also: one reopen after the last merge), every read over heights {0, base-1..base+max_blocks+1} compared after every merge and every reopen; every such chain is non-trivial (its heights cross the boundary)")
 	r.Assume("miniredis v2.33.0 answers SET/GET/EXISTS/ZADD NX/ZRANGE BYLEX REV LIMIT like a Redis server; the go-redis client is trusted")
 	r.Assume("block map is base.DummyBlockMap over a real isaac.Manifest and the suffrage proof is the harness type vfProof (isaac/block cannot be imported from inside isaac/database)")
 	r.Set("depth", depth)
@@ -398,6 +422,8 @@ func TestVerifC26(t *testing.T) {
 	}
 
 	r.Set("histories_total", counter)
+
+	c26Heights(r, env, mredis, configs, maxblocks, &counter)
 
 	var _ isaac.PermanentDatabase = (*RedisPermanent)(nil)
 }
